@@ -207,8 +207,7 @@ impl Worker {
         let out = String::from_utf8_lossy(&std::fs::read(&self.cap).unwrap_or_default()).into_owned();
         let res = match r {
             Ok(Ok(())) => "ok".to_string(),
-            // (exit status 1 is shared by "conflicts preserved" and real failures; the wording is not pinned down further)
-            Ok(Err(e)) if e.to_lowercase().contains("conflict") => "conflicts".to_string(),
+            Ok(Err(e)) if e.contains("had conflicts") => "conflicts".to_string(),
             Ok(Err(e)) => format!("error: {e}"),
             Err(p) => format!("panic: {p}"),
         };
